@@ -4,6 +4,11 @@ import json, subprocess
 
 # id: (level, engine, technique, level text, level note, design ref)
 CHECKS = {
+ "C07": ("exploration", "space",
+         "complete enumeration of Helmert parameter sets x spellings x epochs x directions on a fixed point set, against the EPSG small-angle formulae and metamorphic relations",
+         "All combinations of 3 translations x 4 rotations (0, sub-arcsecond, 10 arcsec class, 30 degrees exact) x 3 scales x 8 rate subsets x 2 conventions x exact/small-angle x t_obs absent/given (quick: rate subsets reduced off the main diagonal), each in scalar, list and mixed spelling, applied forward and inverse to 27 cartesian points within 1e7 m that carry four different epochs in ONE set: forward equals T(t)+(1+s(t))R(t)x from a 3x3 reference evaluated per tuple epoch (1e-8 m; second order in the angles in exact mode); distances scale by 1+s; PV(r) == CF(-r); exact PV and CF matrices are transposes; spellings bit-identical; epoch untouched; t_obs == every tuple at that epoch; inverse undoes forward (1e-9 m exact/unrotated, second order otherwise); molodensky (full 0.5 m, abridged 5 m) against cart|helmert|cart inv for 5 shifts up to 200 m on a lat/lon/height lattice.",
+         "Exact mode is not compared with a specific composition order (the property states none). Parameter values outside the enumerated alphabet are not covered.",
+         "DESIGN.md §3 C07"),
  "C06": ("exploration", "space",
          "complete enumeration of ellipsoid table x latitude/longitude/height lattices x geodesic start/azimuth/distance lattices x auxiliary latitude kinds, against identities, closed forms and Gauss-Legendre quadrature",
          "Every entry of the built-in table (via hook H2) must instantiate and carry the published a and 1/f (harness transcription of PROJ's list; names without reference are UNCOVERED); for every ellipsoid (quick 8 + 4 synthetic with f up to 1/150, thorough all) the nine derived shape parameters satisfy their identities; geographic->cartesian equals the defining formula, height-zero points satisfy the ellipsoid equation, the cart operator round-trips to 1 um and the closed form to 1 cm for h in [-10 km, 100 km] (1 mm to 1e7 m for ordinary flattenings) on a lat x lon x 7-height lattice incl. the poles; all six auxiliary latitudes are odd, strictly increasing along the lattice, fix 0 and the poles, round-trip to 1e-12 rad and equal their closed forms / quadrature to 1e-11 rad; meridian distance and latitude are mutual inverses; geodesics from 6 (thorough 98) starts x 32 azimuths (every 15 deg plus 0.1 deg off the cardinals) x 6 distances to 19000 km: direct/inverse consistency, end point symmetry, meridian arcs against quadrature, equatorial arcs a*dlon, great circles on the sphere.",
@@ -107,7 +112,7 @@ def main():
             "add_only": True,
         },
         "engines": [
-            {"name": "space", "path": "/verif/mc/src/engine.rs", "kind_free_text": "exhaustive mixed-radix product enumeration on 16 threads (par_range/decode)", "serves_properties": ["C01", "C05", "C06", "C11", "C13", "C16", "C19"]},
+            {"name": "space", "path": "/verif/mc/src/engine.rs", "kind_free_text": "exhaustive mixed-radix product enumeration on 16 threads (par_range/decode)", "serves_properties": ["C01", "C05", "C06", "C07", "C11", "C13", "C16", "C19"]},
             {"name": "explore", "path": "/verif/mc/src/props", "kind_free_text": "explicit-state / program-tree exploration of the real API against reference models written in Rust", "serves_properties": ["C02", "C03", "C04", "C12", "C17", "C18"]},
             {"name": "sched", "path": "/verif/mc/src/props/c18.rs", "kind_free_text": "shuttle DfsScheduler over real threads sharing Plain contexts and the process-wide grid cache; yield points from hook H4", "serves_properties": ["C18"]},
             {"name": "workers", "path": "/verif/mc/src/engine.rs", "kind_free_text": "worker subprocesses (2 MiB stack, 4 GiB address space, watchdog) for hang / overflow / abort detection", "serves_properties": ["C04"]},
